@@ -86,6 +86,12 @@ SPECIALS = [
      [S(["interface X"], [S(["undo description", "description b"]), S(["mtu 9000", "mtu 1500"])])],
      # a patching rulebook with a catch-all line rule inside the block: the explicit negated form is a line to send
      "interface *\n    description\n    mtu\n    ~\n"),
+    # a deletable block (explicit %cant_delete=0) with a protected child; the rulebook keeps the block itself (permanent),
+    # so a "removed" block survives and its protected child must survive with it
+    ("interface * %cant_delete=0\n    description %cant_delete=1\n    mtu\n",
+     [S(["interface X"], [S(["description a"]), S(["mtu 9000"])]), S(["interface Y"], [S(["description b"])])],
+     [S(["interface X"], [S(["description a", "description c"]), S(["mtu 9000", "mtu 1500"])])],
+     "interface * %logic=common.permanent\n    description\n    mtu\n"),
 ]
 SPECIAL_ACLS = [x[0] for x in SPECIALS]
 
